@@ -31,6 +31,7 @@ type anteCase struct {
 }
 
 type anteDriver struct {
+	memoN int // rotates the memo texts
 	w     *tracew.Writer
 	a, b  *Session
 	types map[string][]string // class -> registered type urls
@@ -272,7 +273,9 @@ func (d *anteDriver) build(c anteCase, modeHeight int64, used map[string]uint64)
 		o.ExtraSigner = p2
 	}
 	if c.Memo {
-		o.Memo = "hello"
+		// "has a memo" in all its shapes: text, a single blank, other white space only, a NUL byte (all within auth's memo length limit)
+		d.memoN++
+		o.Memo = []string{"hello", " ", "\n", "\t \r\n", "\x00", "0", "  "}[d.memoN%7]
 	}
 	switch c.Timeout {
 	case "past":
